@@ -511,6 +511,70 @@ def run_many_states(case):
     return Info(n > 512, ["many_n=%d" % n, "many_container=" + case["container"]],
                 key=[n, case["seed"], case["lag"], case["container"], case["cols"]])
 
+
+# --------------------------------------------------------------------------
+# clause 9: seeded medium chains - (a) sink sets covering half of 17..40 states and more, (b) float32 transition
+# matrices with dyadic entries in every container (the answer is the double-precision one), (c) chains that are
+# symmetric up to a relative 1e-6 (all-pairs table with library-computed populations)
+
+@st.composite
+def medium_case(draw):
+    return {"n": draw(st.integers(17, 40)), "seed": draw(st.integers(0, 2 ** 31 - 1)),
+            "kind": draw(st.sampled_from(["many_sinks", "many_sinks", "float32_dyadic", "near_symmetric"])),
+            "container": draw(st.sampled_from(R.CONTAINERS)), "lag": draw(st.sampled_from([1.0, 0.5, 3])),
+            "frac": draw(st.sampled_from([0.5, 0.6, 0.9]))}
+
+
+def run_medium(case):
+    rng = np.random.RandomState(case["seed"])            # seed drawn by Hypothesis
+    n, lag, kind = case["n"], case["lag"], case["kind"]
+    if kind == "near_symmetric":
+        # symmetric circulant (doubly stochastic) plus a relative asymmetry of ~1e-6: not symmetric, "close" to it
+        c = rng.randint(1, 30, size=n // 2 + 1).astype(float)
+        Wt = np.array([[c[min(abs(i - j), n - abs(i - j))] for j in range(n)] for i in range(n)]) * 1e6
+        Wt = Wt + rng.randint(0, 40, size=(n, n)) * (1 - np.eye(n))
+        T = Wt / Wt.sum(axis=1)[:, None]
+        A = _mat(_quiet(tpt.mfpts, R.to_container(T, case["container"]), lagtime=lag), n, "all-pairs mfpts")
+        tols = allpairs_tol(T, lag)
+        for j in sorted(set([0, n - 1] + rng.randint(0, n, size=3).tolist())):
+            single = R.ref_mfpt(T, [j], lag)
+            scale = max(float(lag), float(np.max(np.abs(single))))
+            require(float(np.max(np.abs(A[:, j] - single))) <= 1e-9 * scale + tols[j], "all-pairs column differs from the "
+                    "single-sink reference on a nearly symmetric chain", j=j, n=n, worst=float(np.max(np.abs(A[:, j] - single))),
+                    scale=scale)
+        return Info(True, ["medium=" + kind, "container=" + case["container"]], key=[case[k_] for k_ in sorted(case)])
+    Wi = rng.randint(0, 8, size=(n, n)) * (rng.rand(n, n) < 0.4)
+    for k in range(n):
+        Wi[k, (k + 1) % n] += 1
+        Wi[k, (k - 1) % n] += 1
+    if kind == "float32_dyadic":
+        off = Wi.sum(axis=1) - np.diag(Wi)
+        tot = 1
+        while tot <= int(off.max()):
+            tot *= 2
+        Wi[np.arange(n), np.arange(n)] = tot - off
+        T = Wi / float(tot)                                  # every entry k / 2**m: exact in float32
+        X = R.to_container(T, case["container"]).astype(np.float32)
+        require(bool(np.array_equal(R.dense_of(X).astype(np.float64), T)), "harness: T not exact in float32")
+    else:
+        T = Wi / Wi.sum(axis=1)[:, None]
+        X = R.to_container(T, case["container"])
+    perm = rng.permutation(n)
+    if kind == "many_sinks":
+        k = max(1, int(round(case["frac"] * n)))
+        snk = [int(v) for v in perm[:min(k, n - 1)]]
+        m = _vec(_quiet(tpt.mfpts, X, sinks=list(snk), lagtime=lag), n, "mfpts(sinks)")
+        check_mfpt(T, m, snk, lag)
+        return Info(len(snk) * 2 >= n, ["medium=" + kind, "container=" + case["container"], "sinks_share=%s" % case["frac"]],
+                    key=[case[k_] for k_ in sorted(case)])
+    src = [int(v) for v in perm[:2]]
+    snk = [int(v) for v in perm[2:5]]
+    q = _vec(_quiet(tpt.committors, X, list(src), list(snk)), n, "committors")
+    check_committor(T, q, src, snk)
+    m = _vec(_quiet(tpt.mfpts, X, sinks=list(snk), lagtime=lag), n, "mfpts(sinks)")
+    check_mfpt(T, m, snk, lag)
+    return Info(True, ["medium=" + kind, "container=" + case["container"]], key=[case[k_] for k_ in sorted(case)])
+
 # --------------------------------------------------------------------------
 # exhaustive sub-domains (thorough): every source/sink pair, every sink set, on three fixed chains
 
@@ -626,6 +690,9 @@ CLAUSES = [
            doc="call, refill the same container object in place with another chain, call again: values are those of the new chain"),
     Clause("allpairs_many_states", many_states_case(), run_many_states, quick=8, thorough=80,
            doc="511..1025 states: columns 0, 511, 512, n-2, n-1 and drawn ones of the all-pairs table == single-sink solves"),
+    Clause("medium_chains", medium_case(), run_medium, quick=200, thorough=3000,
+           doc="17..40 states (seeded): sink sets of half the states and more; float32 dyadic matrices in every container; "
+               "nearly symmetric chains (all-pairs, computed populations)"),
     Clause("committor_first_step_large", committor_case(max_n=25), run_committor, quick=0, thorough=2500),
     Clause("mfpt_sinks_first_step_large", mfpt_case(max_n=25), run_mfpt_sinks, quick=0, thorough=2500),
     Clause("mfpt_allpairs_columns_large", allpairs_case(max_n=16), run_allpairs, quick=0, thorough=800),
